@@ -18,6 +18,7 @@ import time
 VERIF = os.path.dirname(os.path.dirname(os.path.abspath(__file__)))
 REPO = os.environ.get("VERIF_REPO", "/repo")
 COQ = os.path.join(VERIF, "coq")
+OUT = os.environ.get("VERIF_OUT", VERIF)   # where replays/ and evidence/ go (tools/seedtest.sh redirects them so that a seed run never overwrites the real evidence)
 GUARD = "CSVPATH_VERIF"
 
 CONFIG_INI = """[csvpath_files]
@@ -75,7 +76,7 @@ class Ctx:
     # ---------------------------------------------------------------- scratch
     def clear_replays(self):
         import glob
-        for f in glob.glob(os.path.join(VERIF, "replays", f"{self.pid}-*.json")):
+        for f in glob.glob(os.path.join(OUT, "replays", f"{self.pid}-*.json")):
             os.remove(f)
 
     def setup_scratch(self):
@@ -190,8 +191,8 @@ class Ctx:
 
     # ---------------------------------------------------------------- results
     def replay_path(self, tag):
-        os.makedirs(os.path.join(VERIF, "replays"), exist_ok=True)
-        return os.path.join(VERIF, "replays", f"{self.pid}-{tag}.json")
+        os.makedirs(os.path.join(OUT, "replays"), exist_ok=True)
+        return os.path.join(OUT, "replays", f"{self.pid}-{tag}.json")
 
     def violation(self, tag, payload, no_input=False):
         path = self.replay_path(tag)
@@ -218,8 +219,8 @@ class Ctx:
             "tree_digest": self.tree_digest(),
             "notes": self.notes,
         }
-        os.makedirs(os.path.join(VERIF, "evidence"), exist_ok=True)
-        with open(os.path.join(VERIF, "evidence", f"{self.pid}.json"), "w") as fh:
+        os.makedirs(os.path.join(OUT, "evidence"), exist_ok=True)
+        with open(os.path.join(OUT, "evidence", f"{self.pid}.json"), "w") as fh:
             json.dump(ev, fh, indent=1, default=str)
         for l in self.known_lines:
             print(l)
